@@ -76,6 +76,14 @@ CLAIMED = {
           'and compares the sharing graph (which objects hold the same BitStore) and all values with the model.'),
     note='Trusted: the per-route store-flow table is hand-modelled and tied by the sharing-graph correspondence; identity is observed via id(o._bitstore) in the harness only. Five sharing defects of the pinned tree were repaired (known_findings.json).',
     technique='Coq proof (heap invariant by induction over histories) + sharing-graph correspondence', design='§5 C04'),
+ 'C09': dict(
+    text=('Coq theorems, generic over arguments, options, keys and values: if the cache key determines the computation then every history of calls (each under its own current options) interleaved with arbitrary evictions '
+          'returns exactly what the undecorated function returns (any capacity, any eviction policy); installing an option table after any history of toggles leaves every patched attribute bound as that table says. '
+          'The premise is discharged per run by generated obligations: a translator computes, from the working tree, every lru_cache site, the options in its key and the options read anywhere below it in the call graph, '
+          'and coqc checks reads within key; the two set_lsb0 dictionaries are extracted and checked to have identical, duplicate-free keys and to equal the dispatch the model uses. '
+          'Histories of ~660 calls over >256 distinct keys per cache are compared call by call with cold-cache execution.'),
+    note='Trusted: the static call graph (name-based, over-approximating; dynamic dispatch through set_fn/get_fn/read_fn resolved to all dtype functions), validated by the warm-vs-cold differential run; lru_cache modelled as an association list.',
+    technique='Coq proof (generic memoisation theorem) + generated obligations from a call-graph translator + warm/cold differential', design='§5 C09'),
 }
 
 def main():
